@@ -966,7 +966,9 @@ class Interp:
                 return Int(x * y, a.bits, s)
             if op == "MulWithOverflow":
                 if s:
-                    raise Unsupported("signed overflow op")
+                    wide = z3.SignExt(a.bits, x) * z3.SignExt(a.bits, y)
+                    r = x * y
+                    return Tup([Int(r, a.bits, s), z3.SignExt(a.bits, r) != wide])
                 wide = z3.ZeroExt(a.bits, x) * z3.ZeroExt(a.bits, y)
                 return Tup([Int(x * y, a.bits, s), z3.Extract(2 * a.bits - 1, a.bits, wide) != 0])
             if op == "BitAnd":
@@ -975,12 +977,14 @@ class Interp:
                 return Int(x | y, a.bits, s)
             if op == "AddWithOverflow":
                 if s:
-                    raise Unsupported("signed overflow op")
+                    r = x + y
+                    return Tup([Int(r, a.bits, s), z3.SignExt(1, r) != z3.SignExt(1, x) + z3.SignExt(1, y)])
                 r = x + y
                 return Tup([Int(r, a.bits, s), z3.ULT(r, x)])
             if op == "SubWithOverflow":
                 if s:
-                    raise Unsupported("signed overflow op")
+                    r = x - y
+                    return Tup([Int(r, a.bits, s), z3.SignExt(1, r) != z3.SignExt(1, x) - z3.SignExt(1, y)])
                 return Tup([Int(x - y, a.bits, s), z3.ULT(x, y)])
             raise Unsupported(f"binop {op}")
         if z3.is_bool(a) and z3.is_bool(b):
